@@ -28,6 +28,12 @@ import (
 // BindPattern is the bind DN pattern to configure in the authenticator under test.
 const BindPattern = "uid=%s,ou=people,dc=example,dc=com"
 
+// ClientTimeoutSecs is the per-server timeout the harnesses configure the real LDAP authenticator with: the most
+// that lib/pwauth/ldap's own cap (timeout x servers <= 7 s) leaves untouched for the two servers of a Cluster. With 1 s
+// a TLS dial + bind against an "up" in-process server occasionally timed out on a loaded machine and the authenticator
+// moved on to the next server ("1+" where the model, for which an up server answers, says "0+").
+const ClientTimeoutSecs = 3
+
 // Patterns maps pattern kinds to bind patterns: "e" names the user's entry, "n" is a well-formed DN
 // under a branch that holds no entries (the directory answers invalidCredentials whatever the
 // password), "m" is a userPrincipalName-style name the directory answers with invalidDNSyntax.
